@@ -78,4 +78,59 @@ def undoAll {V} : List ((Nat × Nat) × V) → Heap V → Heap V
 def sweepValues {V} (ws : List (Nat × Nat)) (stores : List V) (H : Heap V) : Heap V :=
   wfwd ws (undoAll (ws.zip stores) H)
 
+/-! ## general in-place writes and evaluations of a graph with constant work arrays
+
+`cell d := g (current heap)` — e.g. the accumulation `acc += x` is `g h = h acc + h x`.  The heap holds the cells of the
+*constant* nodes of the graph (work arrays wrapped by hand, whose storage no recorded node re-creates) and of the inputs. -/
+structure GWrite (V : Type) where
+  d : Nat
+  g : Heap V → V
+
+def gfwd {V} : List (GWrite V) → Heap V → Heap V
+  | [], h => h
+  | w :: ws, h => gfwd ws (upd h w.d (w.g h))
+
+/-- the contents each write saves before it overwrites its cell (`Function.pushforward`: `setitem = (idx, old.copy())`) -/
+def gsaved {V} : List (GWrite V) → Heap V → List (Nat × V)
+  | [], _ => []
+  | w :: ws, h => (w.d, h w.d) :: gsaved ws (upd h w.d (w.g h))
+
+/-- the restores, last write first (`CGraph.pushforward`, repaired: `f.args[0].x[idx] = saved` over the reversed list) -/
+def gundo {V} : List (Nat × V) → Heap V → Heap V
+  | [], H => H
+  | (d, v) :: rest, H => upd (gundo rest H) d v
+
+/-- set the input cells (`f.args[0].x = x_list[nf]`): the cells listed in `ins` take the new values -/
+def setIn {V} (ins : List (Nat × V)) (h : Heap V) : Heap V :=
+  ins.foldl (fun H iv => upd H iv.1 iv.2) h
+
+/-- one evaluation of the repaired `CGraph.pushforward`: undo the previous evaluation's writes, set the inputs, run the writes.
+State = (heap, what the writes saved). -/
+def evalUndo {V} (ws : List (GWrite V)) (st : Heap V × List (Nat × V)) (ins : List (Nat × V)) : Heap V × List (Nat × V) :=
+  let h := setIn ins (gundo st.2 st.1)
+  (gfwd ws h, gsaved ws h)
+
+/-- the old behaviour: no undo -/
+def evalNoUndo {V} (ws : List (GWrite V)) (H : Heap V) (ins : List (Nat × V)) : Heap V :=
+  gfwd ws (setIn ins H)
+
+/-- executable instance for the driver: accumulating writes `cell d += cell s` over the rationals -/
+def accWrites (ws : List (Nat × Nat)) : List (GWrite Rat) := ws.map fun p => ⟨p.1, fun h => h p.1 + h p.2⟩
+
+/-- the value of cell `out` after each of a sequence of evaluations (inputs per evaluation), starting from the state the
+recording left behind (the recording ran the writes once on `h0` with the recording inputs) -/
+def accHistory (undo : Bool) (ws : List (Nat × Nat)) (h0 : List Rat) (rec : List (Nat × Rat)) (calls : List (List (Nat × Rat))) (out : Nat) : List Rat :=
+  let H0 : Heap Rat := fun i => h0.getD i 0
+  let w := accWrites ws
+  let start := setIn rec H0
+  let st0 : Heap Rat × List (Nat × Rat) := (gfwd w start, gsaved w start)
+  if undo then
+    (calls.foldl (fun (acc : (Heap Rat × List (Nat × Rat)) × List Rat) ins =>
+      let st := evalUndo w acc.1 ins
+      (st, acc.2 ++ [st.1 out])) (st0, [])).2
+  else
+    (calls.foldl (fun (acc : Heap Rat × List Rat) ins =>
+      let H := evalNoUndo w acc.1 ins
+      (H, acc.2 ++ [H out])) (st0.1, [])).2
+
 end AV.Tracer
